@@ -309,7 +309,8 @@ func isVarTerm(t *smt.Term) bool {
 // quickDecide decides (dis)equalities between string variables and constants syntactically when the
 // variables occur in the path condition only in literals of the form (= x c) / (not (= x c)).
 // Returns decided=false whenever it is not certain (the solver is asked then).
-//   both=true: both outcomes are feasible; otherwise val is the forced outcome.
+//
+//	both=true: both outcomes are feasible; otherwise val is the forced outcome.
 func (in *Interp) quickDecide(c *smt.Term) (decided, val, both bool) {
 	neg := false
 	if c.Op == "not" && len(c.Args) == 1 {
